@@ -325,15 +325,22 @@ def rule_G5(ctx: Ctx) -> None:
             for n in ast.walk(inner[0]):
                 if isinstance(n, ast.If) and any(isinstance(s, ast.Assign) and X.U(s.targets[0]) == flag and isinstance(s.value, ast.Constant) and s.value.value is False for s in n.body):
                     tests.append(n)
+        # the criteria: every disjunct of every flag-clearing test (two separate tests, or one test `A or B`)
+        crit = []
+        for t in tests:
+            nf_ = N.boolean_nf(X.substitute_len(t.test))
+            for d_ in (nf_[1] if isinstance(nf_, tuple) and nf_[0] == "or" else [nf_]):
+                crit.append((t, d_))
         for thr, fieldn in (("minimum_difference_connection_list", "connection_list"), ("minimum_difference_solution", "solution")):
-            hit = [t for t in tests if thr in X.U(t.test)]
-            if len(hit) != 1:
-                ctx.unknown(f, {"threshold": thr, "tests": len(hit)}, "one threshold test per criterion")
+            hit_c = [(t, d_) for t, d_ in crit if thr in N.nf_str(d_)]
+            if len(hit_c) != 1:
+                ctx.unknown(f, {"threshold": thr, "tests": len(hit_c)}, "one threshold test per criterion")
                 continue
+            hit = [hit_c[0][0]]
             b_name = inner[0].target.id
             a_, b_ = f"{a_name}.{fieldn}", f"{b_name}.{fieldn}"
             # (normalised form: one conjunction `thr is not None and shapes equal and <distance> <= thr`)
-            nf = N.boolean_nf(X.substitute_len(hit[0].test))
+            nf = hit_c[0][1]
             atoms = {a.key() for a in N.nf_atoms(nf)} if (isinstance(nf, N.Atom) or nf[0] == "and") else None
             dist_keys = {N.boolean_nf(X.expr_of(t.format(a=x, b=y, thr=thr))).key() for x, y in ((a_, b_), (b_, a_)) for t in (
                 "np.sum({a} != {b}) <= {thr}", "({a} != {b}).sum() <= {thr}", "np.count_nonzero({a} != {b}) <= {thr}")}
